@@ -78,20 +78,51 @@ pub struct Scen {
     pub heartbeat: bool,
     /// the server has answered the opens before the fault: odd streams refused (SYNACK with text), even ones accepted
     pub verdicts: bool,
+    /// the client pads with the default scheme (several transport writes per packet, padding frames on the wire)
+    pub padded: bool,
+    /// both directions fragment writes and reads at random and return spurious Pending
+    pub frag: bool,
 }
 
 const SCENARIOS: &[Scen] = &[
-    Scen { name: "before_first_write", streams: 0, chunks: 0, chunk: 0, api: 0, readers: false, backpressure: false, heartbeat: false, verdicts: false },
-    Scen { name: "opens_pending", streams: 2, chunks: 0, chunk: 0, api: 0, readers: true, backpressure: false, heartbeat: false, verdicts: false },
-    Scen { name: "streams_idle", streams: 2, chunks: 1, chunk: 30, api: 0, readers: true, backpressure: false, heartbeat: false, verdicts: false },
-    Scen { name: "mid_transfer_direct", streams: 2, chunks: 4, chunk: 700, api: 0, readers: true, backpressure: false, heartbeat: false, verdicts: false },
-    Scen { name: "mid_transfer_queued", streams: 3, chunks: 4, chunk: 300, api: 1, readers: true, backpressure: false, heartbeat: false, verdicts: false },
-    Scen { name: "concurrent_writers", streams: 4, chunks: 3, chunk: 100, api: 0, readers: false, backpressure: false, heartbeat: true, verdicts: false },
-    Scen { name: "opens_answered_then_idle", streams: 3, chunks: 0, chunk: 0, api: 0, readers: true, backpressure: false, heartbeat: false, verdicts: true },
-    Scen { name: "opens_answered_mid_transfer", streams: 3, chunks: 3, chunk: 200, api: 1, readers: true, backpressure: false, heartbeat: false, verdicts: true },
-    Scen { name: "writer_backpressured", streams: 1, chunks: 6, chunk: 400, api: 0, readers: true, backpressure: true, heartbeat: false, verdicts: false },
-    Scen { name: "queued_writer_backpressured", streams: 2, chunks: 6, chunk: 400, api: 1, readers: true, backpressure: true, heartbeat: false, verdicts: false },
+    Scen { name: "before_first_write", streams: 0, chunks: 0, chunk: 0, api: 0, readers: false, backpressure: false, heartbeat: false, verdicts: false, padded: false, frag: false },
+    Scen { name: "opens_pending", streams: 2, chunks: 0, chunk: 0, api: 0, readers: true, backpressure: false, heartbeat: false, verdicts: false, padded: false, frag: false },
+    Scen { name: "streams_idle", streams: 2, chunks: 1, chunk: 30, api: 0, readers: true, backpressure: false, heartbeat: false, verdicts: false, padded: false, frag: false },
+    Scen { name: "mid_transfer_direct", streams: 2, chunks: 4, chunk: 700, api: 0, readers: true, backpressure: false, heartbeat: false, verdicts: false, padded: false, frag: false },
+    Scen { name: "mid_transfer_queued", streams: 3, chunks: 4, chunk: 300, api: 1, readers: true, backpressure: false, heartbeat: false, verdicts: false, padded: false, frag: false },
+    Scen { name: "concurrent_writers", streams: 4, chunks: 3, chunk: 100, api: 0, readers: false, backpressure: false, heartbeat: true, verdicts: false, padded: false, frag: false },
+    Scen { name: "opens_answered_then_idle", streams: 3, chunks: 0, chunk: 0, api: 0, readers: true, backpressure: false, heartbeat: false, verdicts: true, padded: false, frag: false },
+    Scen { name: "opens_answered_mid_transfer", streams: 3, chunks: 3, chunk: 200, api: 1, readers: true, backpressure: false, heartbeat: false, verdicts: true, padded: false, frag: false },
+    Scen { name: "writer_backpressured", streams: 1, chunks: 6, chunk: 400, api: 0, readers: true, backpressure: true, heartbeat: false, verdicts: false, padded: false, frag: false },
+    Scen { name: "queued_writer_backpressured", streams: 2, chunks: 6, chunk: 400, api: 1, readers: true, backpressure: true, heartbeat: false, verdicts: false, padded: false, frag: false },
+    Scen { name: "mid_transfer_padded", streams: 2, chunks: 4, chunk: 700, api: 0, readers: true, backpressure: false, heartbeat: false, verdicts: false, padded: true, frag: false },
+    Scen { name: "queued_padded_fragmented", streams: 3, chunks: 3, chunk: 500, api: 1, readers: true, backpressure: false, heartbeat: true, verdicts: true, padded: true, frag: true },
 ];
+
+/// the hand-written scenarios plus generated ones (fixed generator seed: a scenario name identifies its
+/// parameters in every run, so replay files stay valid)
+fn all_scen() -> &'static Vec<Scen> {
+    static ALL: std::sync::OnceLock<Vec<Scen>> = std::sync::OnceLock::new();
+    ALL.get_or_init(|| {
+        let mut v: Vec<Scen> = SCENARIOS.to_vec();
+        let mut rng = Rng::new(0x5CE9_A810);
+        for i in 0..40 {
+            let streams = rng.usize(0, 6);
+            let chunks = if streams == 0 { 0 } else { rng.usize(0, 5) };
+            let chunk = *rng.pick(&[1usize, 9, 120, 700, 3000, 20_000, 70_000]);
+            let api = rng.below(2) as u8;
+            let readers = rng.chance(0.7);
+            let backpressure = streams > 0 && chunks > 0 && rng.chance(0.3);
+            let heartbeat = rng.chance(0.3);
+            let verdicts = rng.chance(0.4);
+            let padded = rng.chance(0.5);
+            let frag = rng.chance(0.4);
+            let name: &'static str = Box::leak(format!("gen{i}_s{streams}_c{chunks}x{chunk}_api{api}{}{}{}{}{}{}", if readers { "_rd" } else { "" }, if backpressure { "_bp" } else { "" }, if heartbeat { "_hb" } else { "" }, if verdicts { "_vd" } else { "" }, if padded { "_pad" } else { "" }, if frag { "_frag" } else { "" }).into_boxed_str());
+            v.push(Scen { name, streams, chunks, chunk, api, readers, backpressure, heartbeat, verdicts, padded, frag });
+        }
+        v
+    })
+}
 
 #[derive(Clone, Debug)]
 pub struct FaultCase {
@@ -105,7 +136,7 @@ pub struct FaultCase {
 
 impl FaultCase {
     pub fn from_json(v: &Value) -> Option<FaultCase> {
-        let scen = SCENARIOS.iter().position(|s| Some(s.name) == v.get("scenario").and_then(|x| x.as_str()))?;
+        let scen = all_scen().iter().position(|s| Some(s.name) == v.get("scenario").and_then(|x| x.as_str()))?;
         let side = if v.get("side")?.as_str()? == "Client" { Side::Client } else { Side::Server };
         let cname = v.get("cause")?.as_str()?;
         let cause = [Cause::ReadEof, Cause::ReadUnexpectedEof, Cause::ReadReset, Cause::WriteBrokenPipe, Cause::WriteReset, Cause::Alert, Cause::OwnerClose, Cause::ReaperClose, Cause::HeartbeatGiveUp].into_iter().find(|c| c.name() == cname)?;
@@ -116,7 +147,7 @@ impl FaultCase {
         Some(FaultCase { scen, side, cause, at: v.get("at")?.as_u64()?, plan })
     }
     fn describe(&self) -> Value {
-        json!({"kind": "c09", "scenario": SCENARIOS[self.scen].name, "side": format!("{:?}", self.side), "cause": self.cause.name(), "at": self.at, "forced_yields": self.plan.iter().map(|(k, v)| json!([k, v])).collect::<Vec<_>>()})
+        json!({"kind": "c09", "scenario": all_scen()[self.scen].name, "side": format!("{:?}", self.side), "cause": self.cause.name(), "at": self.at, "forced_yields": self.plan.iter().map(|(k, v)| json!([k, v])).collect::<Vec<_>>()})
     }
 }
 
@@ -148,13 +179,14 @@ async fn run_async(fc: Option<FaultCase>, scen: Scen, clean: bool) -> Observed {
     let cause = fc.as_ref().map(|f| f.cause);
     // pipes: the subject's outbound pipe is tiny in back-pressure scenarios
     let tiny = PipeCfg { capacity: 256, write_frag: Frag::All, read_frag: Frag::All, pending_prob: 0.0, seed: 1 };
+    let base = if scen.frag { PipeCfg { capacity: 4096, write_frag: Frag::Random(900), read_frag: Frag::Pool(vec![1, 7, 8, 64, 1000]), pending_prob: 0.15, seed: 7 } } else { PipeCfg::plain() };
     let (c2s_cfg, s2c_cfg) = match (scen.backpressure, side) {
-        (true, Side::Client) => (tiny.clone(), PipeCfg::plain()),
-        (true, Side::Server) => (PipeCfg::plain(), tiny.clone()),
-        _ => (PipeCfg::plain(), PipeCfg::plain()),
+        (true, Side::Client) => (tiny.clone(), base.clone()),
+        (true, Side::Server) => (base.clone(), tiny.clone()),
+        _ => (base.clone(), base.clone()),
     };
     let hb = if scen.heartbeat || cause == Some(Cause::HeartbeatGiveUp) { Some(SessionHeartbeatConfig { interval: Duration::from_secs(10), timeout: Duration::from_secs(25) }) } else { None };
-    let mut pair = engine::make_pair(PairCfg { c2s: c2s_cfg, s2c: s2c_cfg, client_padding: engine::no_padding(), server_padding: engine::no_padding(), heartbeat: hb }).await;
+    let mut pair = engine::make_pair(PairCfg { c2s: c2s_cfg, s2c: s2c_cfg, client_padding: if scen.padded { engine::default_padding() } else { engine::no_padding() }, server_padding: engine::no_padding(), heartbeat: hb }).await;
     let (subject, peer) = match side {
         Side::Client => (pair.client.clone(), pair.server.clone()),
         Side::Server => (pair.server.clone(), pair.client.clone()),
@@ -190,7 +222,17 @@ async fn run_async(fc: Option<FaultCase>, scen: Scen, clean: bool) -> Observed {
     // --- open streams the way the client does; keep the pending-open receivers
     let mut client_streams = Vec::new();
     for i in 0..scen.streams {
-        let r = tokio::time::timeout(Duration::from_secs(D), engine::open_like_client(&pair.client, Bytes::from(vec![i as u8; 9]))).await;
+        // the open runs in its own task: if it blocks (back-pressure) it stays alive as a waiter that the
+        // session's death must release, instead of being cancelled by the monitor
+        let mut open_task = {
+            let c = pair.client.clone();
+            tokio::spawn(async move { engine::open_like_client(&c, Bytes::from(vec![i as u8; 9])).await })
+        };
+        let r = match tokio::time::timeout(Duration::from_secs(D), &mut open_task).await {
+            Ok(Ok(r)) => Ok(r),
+            Ok(Err(_)) => Ok(Err(anytls_rs::util::AnyTlsError::Protocol("open task panicked".into()))),
+            Err(_) => Err(open_task),
+        };
         match r {
             Ok(Ok((st, rx))) => {
                 if side == Side::Client {
@@ -208,8 +250,15 @@ async fn run_async(fc: Option<FaultCase>, scen: Scen, clean: bool) -> Observed {
                 client_streams.push(st);
             }
             Ok(Err(_)) => break, // the fault hit during the opens: later checks still apply
-            Err(_) => {
-                table.lock().unwrap().insert(format!("open_like_client[{i}]"), None);
+            Err(open_task) => {
+                let done = waiter(&table, format!("open_like_client[{i}]"));
+                harness_tasks.push(tokio::spawn(async move {
+                    done(match open_task.await {
+                        Ok(Ok(_)) => "resolved_ok".into(),
+                        Ok(Err(e)) => format!("err:{e}"),
+                        Err(_) => "err:task ended".into(),
+                    });
+                }));
                 break;
             }
         }
@@ -458,7 +507,7 @@ async fn run_async(fc: Option<FaultCase>, scen: Scen, clean: bool) -> Observed {
 
 pub fn run_fault(fc: &FaultCase) -> Observed {
     let guard = sched::install(if fc.plan.is_empty() { SchedMode::Observe } else { SchedMode::Plan(fc.plan.clone()) }, 0);
-    let scen = SCENARIOS[fc.scen].clone();
+    let scen = all_scen()[fc.scen].clone();
     let fc2 = fc.clone();
     let r = run::vt_block_on_deadline(Duration::from_secs(200_000), async move { run_async(Some(fc2), scen, false).await });
     let st = guard.state.borrow();
@@ -469,7 +518,7 @@ pub fn run_fault(fc: &FaultCase) -> Observed {
 }
 
 fn clean_recording(scen: usize, side: Side) -> Observed {
-    let s = SCENARIOS[scen].clone();
+    let s = all_scen()[scen].clone();
     let _g = sched::install(SchedMode::Observe, 0);
     // the clean run uses the same side so that pipe configurations match
     let probe = FaultCase { scen, side, cause: Cause::OwnerClose, at: u64::MAX, plan: BTreeMap::new() };
@@ -477,7 +526,7 @@ fn clean_recording(scen: usize, side: Side) -> Observed {
 }
 
 fn record(rep: &mut Report, fc: &FaultCase, o: &Observed) {
-    let scen = &SCENARIOS[fc.scen];
+    let scen = &all_scen()[fc.scen];
     if !o.fired {
         rep.add("fault_not_reached", 1);
         return;
@@ -514,7 +563,7 @@ pub fn run(ctx: Ctx) -> Report {
     run::run_sharded("C09", ctx.shards, move |shard, nshards, rep| {
         let mut rng = Rng::new(ctx.seed.wrapping_mul(77).wrapping_add(shard as u64) ^ 0xC09);
         let mut job = 0usize;
-        for (si, scen) in SCENARIOS.iter().enumerate() {
+        for (si, scen) in all_scen().iter().enumerate().take(SCENARIOS.len() + if quick { 3 } else { 40 }) {
             for side in [Side::Client, Side::Server] {
                 let clean = clean_recording(si, side);
                 let (inb, outb) = match side {
@@ -617,7 +666,7 @@ pub fn run(ctx: Ctx) -> Report {
 pub fn meta() -> CheckMeta {
     CheckMeta {
         level: "fault_enumeration",
-        rule: format!("fault run = (scenario, side, cause, position[, forced pre-emption]). Scenarios: {}. A clean recording of each scenario gives the frame boundaries of both directions; offset causes (clean EOF, UnexpectedEof, read error, two write errors, black-hole for the heartbeat give-up) are injected at every boundary, boundary+1/+3/+7 and mid-payload; step causes (peer Alert, owner close(), pool reaper close) after every logical step; each fired run is repeated with a forced pre-emption at the close()/handle_io_error scheduling points (thorough: 4 yield lengths and sampled write-path points). Oracle, {D} virtual seconds after the cause: is_closed, shutdown/drop recorded on the transport, every blocked reader / in-flight writer / pending open / close call completed, pending opens not Ok, a later write and a later open fail promptly, no session task alive, stream tables empty. distinct_nontrivial = distinct fault runs whose fault actually fired.", SCENARIOS.iter().map(|s| s.name).collect::<Vec<_>>().join(", ")),
+        rule: format!("fault run = (scenario, side, cause, position[, forced pre-emption]). Scenarios: {}. A clean recording of each scenario gives the frame boundaries of both directions; offset causes (clean EOF, UnexpectedEof, read error, two write errors, black-hole for the heartbeat give-up) are injected at every boundary, boundary+1/+3/+7 and mid-payload; step causes (peer Alert, owner close(), pool reaper close) after every logical step; each fired run is repeated with a forced pre-emption at the close()/handle_io_error scheduling points (thorough: 4 yield lengths and sampled write-path points). Oracle, {D} virtual seconds after the cause: is_closed, shutdown/drop recorded on the transport, every blocked reader / in-flight writer / pending open / close call completed, pending opens not Ok, a later write and a later open fail promptly, no session task alive, stream tables empty. distinct_nontrivial = distinct fault runs whose fault actually fired.", format!("{} + 40 generated ones (0-6 streams, 0-5 chunks of 1-70000 bytes, either data path, readers / back-pressure / keep-alive / answered opens / default padding / fragmenting transports at random; quick uses 3 of them)", SCENARIOS.iter().map(|s| s.name).collect::<Vec<_>>().join(", "))),
         assumptions: vec!["bounded progress: a release later than 120 virtual seconds counts as never; an earlier one is not distinguished from immediate".into(), "tokio's paused clock advances only when every task is idle".into()],
         floors: vec![("faults_fired", 300), ("waiters_observed", 600), ("fired_clean_eof", 20), ("fired_write_error_broken_pipe", 20), ("fired_peer_alert", 10), ("fired_owner_close", 10), ("fired_heartbeat_give_up", 5), ("fired_reaper_close", 5)],
         exhaustive: false,
